@@ -29,7 +29,7 @@ Seen(e) == [meta |-> MetaOf(e.st.meta), up |-> Fn(e.st.up), role |-> Fn(e.st.rol
 
 TaintStr == IF taint' = {} THEN "-" ELSE
   LET has(x) == IF x \in taint' THEN x \o "," ELSE "" IN
-  has("epoch-convention") \o has("epoch-gap") \o has("expand-lagging") \o has("hw-fallback") \o has("stale-isr-offset")
+  has("epoch-convention") \o has("epoch-gap") \o has("expand-lagging") \o has("hw-fallback") \o has("hw-fallback-kept") \o has("hw-fallback-reported") \o has("stale-isr-offset")
 
 Fail(kind, e, name) == PrintT(<<"FAIL", kind, e.t, l, e.a, name, TaintStr>>)
 Chk(ok, kind, e, name) == IF ok THEN TRUE ELSE Fail(kind, e, name)
